@@ -132,23 +132,27 @@ fn check_name(ctx: &Ctx, s: &str) {
 
 // ---- builder --------------------------------------------------------------------------------
 fn builder_sweep(ctx: &Ctx) {
-    let mut cases: Vec<(String, usize, usize, usize, bool)> = vec![];
-    for pat in ["NN", "XX", "IK", "K"] {
+    // (name, which key has the swept length, length, prologue length, role, which of the OTHER keys are supplied:
+    //  bit 0 = the first other key in {local, remote, fixed ephemeral} order, bit 1 = the second)
+    let mut cases: Vec<(String, usize, usize, usize, bool, u8)> = vec![];
+    for pat in ["NN", "XX", "IK", "K", "N", "NK", "KN", "X"] {
         for dh in ["25519", "P256"] {
             let name = format!("Noise_{pat}_{dh}_ChaChaPoly_SHA256");
             for which in 0..3 {
                 for len in 0..=200usize {
                     for init in [true, false] {
-                        cases.push((name.clone(), which, len, 0, init));
+                        for others in 0..4u8 {
+                            cases.push((name.clone(), which, len, 0, init, others));
+                        }
                     }
                 }
             }
             for plog in [0usize, 1, 65535, 100_000] {
-                cases.push((name.clone(), 3, 32, plog, true));
+                cases.push((name.clone(), 3, 32, plog, true, 3));
             }
         }
     }
-    cases.par_iter().for_each(|(name, which, len, plog, init)| {
+    cases.par_iter().for_each(|(name, which, len, plog, init, others)| {
         begin(|| format!("builder {name} field {which} len {len}"));
         let dh = if name.contains("P256") { DhAlg::P256 } else { DhAlg::X25519 };
         // key bytes: a valid scalar pattern truncated / extended to `len`
@@ -160,10 +164,24 @@ fn builder_sweep(ctx: &Ctx) {
         let r = catch_unwind(AssertUnwindSafe(|| {
             let mut b = Builder::new(name.parse().unwrap());
             b = b.prologue(&prologue)?;
-            b = b.local_private_key(if *which == 0 { &key } else { &good_sk })?;
-            b = b.remote_public_key(if *which == 1 { &key } else { &good_pk })?;
-            if *which == 2 {
-                b = b.fixed_ephemeral_key_for_testing_only(&key);
+            // the swept key is always supplied; each other key is supplied (with a good value) or left out
+            let mut bit = 0;
+            let mut supplied = |k: usize| -> bool {
+                if k == *which {
+                    return true;
+                }
+                let on = others >> bit & 1 == 1;
+                bit += 1;
+                on
+            };
+            if supplied(0) {
+                b = b.local_private_key(if *which == 0 { &key } else { &good_sk })?;
+            }
+            if supplied(1) {
+                b = b.remote_public_key(if *which == 1 { &key } else { &good_pk })?;
+            }
+            if supplied(2) {
+                b = b.fixed_ephemeral_key_for_testing_only(if *which == 2 { &key } else { &good_sk });
             }
             let h = if *init { b.build_initiator() } else { b.build_responder() }?;
             // a successfully built state must also survive its first step
@@ -181,7 +199,7 @@ fn builder_sweep(ctx: &Ctx) {
         if let Err(p) = r {
             let field = ["local_private_key", "remote_public_key", "fixed_ephemeral_key", "prologue"][*which];
             let class = if *len == 32 || (*which == 1 && *len == dh.publen()) { "of the right length" } else if *len < 32 { "shorter than the DH's key length" } else { "longer than the DH's key length" };
-            ctx.violation(format!("Builder panicked on a {field} {class} ({})", panic_msg(p)), format!("{name} len {len} prologue {plog}"), json!({"kind": "builder", "name": name, "which": which, "len": len, "plog": plog, "init": init}));
+            ctx.violation(format!("Builder panicked on a {field} {class} ({})", panic_msg(p)), format!("{name} len {len} prologue {plog} other keys supplied: {others:02b}"), json!({"kind": "builder", "name": name, "which": which, "len": len, "plog": plog, "init": init, "others": others}));
         }
         end();
     });
